@@ -53,7 +53,7 @@ def gen_plan(rng, tier):
             ops.append({"op": "gm_invalid", "i": rng.randrange(64), "param": rng.choice(["S", "tau_exp", "N_sigma"]), "value": rng.choice(INVALID)})
         elif r < 0.69:
             ops.append({"op": "gm_interrupt", "i": rng.randrange(64), "kw": gen_kw(rng), "frac": round(rng.random(), 4),
-                        "enumerate": tier == "thorough" and rng.random() < 0.02})
+                        "enumerate": rng.random() < (0.02 if tier == "thorough" else 0.004)})
         elif r < 0.81:
             ops.append({"op": "arith", "f": rng.choice(BINOPS), "i": rng.randrange(64), "j": rng.randrange(64), "dst": rng.randrange(64)})
         elif r < 0.87:
